@@ -338,6 +338,159 @@ def pspace_patterns(tier):
     return pats
 
 
+def matrix_operator_case_check(case):
+    """native: MatrixOperator (dense / sparse) along `axis` of a domain of the given shape on EVERY basis vector (the operator is linear: a basis decides all inputs of that
+    shape): op(e) == contraction of the matrix with that axis, op(e, out=y) == op(e) whatever y held before, y returned, e untouched"""
+    import os
+    import sys
+    root = os.environ.get('PYVC_REPO', '/repo')
+    if root not in sys.path:
+        sys.path.insert(0, root)
+    import numpy as np
+    import scipy.sparse
+    import odl
+    shape, axis, m, sparse = tuple(case['shape']), case['axis'], case['rows'], case['sparse']
+    rng = np.random.default_rng(8)
+    M = rng.integers(-3, 4, size=(m, shape[axis])).astype(float)
+    dom = odl.rn(shape)
+    try:
+        op = odl.MatrixOperator(scipy.sparse.coo_matrix(M) if sparse else M, domain=dom, axis=axis)
+        for idx in np.ndindex(*shape):
+            e = np.zeros(shape)
+            e[idx] = 1.0
+            x = dom.element(e.copy())
+            want = np.moveaxis(np.tensordot(M, e, axes=(1, axis)), 0, axis)
+            y1 = op(x)
+            out = op.range.element(np.full(op.range.shape, 7.5))
+            ret = op(x, out=out)
+            if y1.shape != want.shape or not np.allclose(y1.asarray(), want):
+                return 'out-of-place result on e_%s differs from the contraction along axis %d' % (idx, axis)
+            if ret is not out or not np.allclose(out.asarray(), want):
+                return 'in-place result on e_%s: max deviation %.3g from the out-of-place result' % (idx, float(np.max(np.abs(out.asarray() - want))))
+            if not np.array_equal(x.asarray(), e):
+                return 'x modified'
+    except Exception as ex:
+        return 'raised %s: %s' % (type(ex).__name__, ex)
+    return None
+
+
+def unit_matrix_operator_bounded():
+    """BOUNDED stand-in (never counted as proved) for MatrixOperator._call (np.dot / tensordot / moveaxis branches outside the deductive subset): see matrix_operator_case_check"""
+    def run(ctx):
+        for shape in ((3,), (3, 4), (4, 3), (3, 3, 2), (3, 4, 5), (2, 3, 3)):
+            for axis in range(len(shape)):
+                for m in (2, shape[axis]):
+                    for sparse in (False, True):
+                        if sparse and len(shape) > 1:
+                            continue        # documented: sparse matrices only on 1-d domains
+                        case = {'shape': list(shape), 'axis': axis, 'rows': m, 'sparse': sparse}
+                        bad = matrix_operator_case_check(case)
+                        ctx.bounded('MatrixOperator: in-place == out-of-place == contraction along the axis on every basis vector', not bad, case, detail=bad)
+    return Unit('matrix-operator/basis', run, funcs=['odl.operator.tensor_ops:MatrixOperator._call'], kind='B', bounded_in='domain shapes up to 3 axes listed in the unit, every axis, dense and sparse')
+
+
+def operator_pool():
+    """(name, builder) of concrete library operators whose `_call` is outside the deductive units (tensor_ops, pspace_ops, diff_ops, discr_ops, ufunc_ops)"""
+    import numpy as np
+    import odl
+    X = odl.uniform_discr([0, 0], [1, 2], (3, 4))
+    R = odl.rn((2, 3))
+    r3 = odl.rn(3)
+    pool = [('FlatteningOperator', lambda: odl.FlatteningOperator(R)), ('FlatteningOperator.inverse', lambda: odl.FlatteningOperator(R).inverse),
+            ('FlatteningOperator(order=F)', lambda: odl.FlatteningOperator(R, order='F')),
+            ('MatrixOperator', lambda: odl.MatrixOperator(np.arange(6.0).reshape(2, 3), r3)), ('SamplingOperator', lambda: odl.SamplingOperator(R, [[0, 1], [1, 2]])),
+            ('WeightedSumSamplingOperator', lambda: odl.WeightedSumSamplingOperator(R, [[0, 1], [1, 2]])),
+            ('PointwiseNorm', lambda: odl.PointwiseNorm(X ** 2)), ('PointwiseInner', lambda: odl.PointwiseInner(X ** 2, (X ** 2).one())), ('PointwiseSum', lambda: odl.PointwiseSum(X ** 2)),
+            ('ComponentProjection', lambda: odl.ComponentProjection(r3 ** 2, 1)), ('ComponentProjectionAdjoint', lambda: odl.ComponentProjection(r3 ** 2, 1).adjoint),
+            ('BroadcastOperator', lambda: odl.BroadcastOperator(odl.IdentityOperator(r3), odl.ScalingOperator(r3, 2.0))),
+            ('ReductionOperator', lambda: odl.ReductionOperator(odl.IdentityOperator(r3), odl.ScalingOperator(r3, 2.0))),
+            ('DiagonalOperator', lambda: odl.DiagonalOperator(odl.IdentityOperator(r3), odl.ScalingOperator(r3, 2.0))),
+            ('PartialDerivative', lambda: odl.PartialDerivative(X, 0)), ('Gradient', lambda: odl.Gradient(X)), ('Divergence', lambda: odl.Divergence(range=X)), ('Laplacian', lambda: odl.Laplacian(X)),
+            ('ResizingOperator', lambda: odl.ResizingOperator(X, ran_shp=(5, 6))), ('Resampling', lambda: odl.Resampling(X, odl.uniform_discr([0, 0], [1, 2], (6, 3)), 'linear')),
+            ('RealPart', lambda: odl.RealPart(odl.cn(3))), ('ImagPart', lambda: odl.ImagPart(odl.cn(3))), ('ComplexEmbedding', lambda: odl.ComplexEmbedding(r3)), ('ComplexModulus', lambda: odl.ComplexModulus(odl.cn(3))),
+            ('IdentityOperator', lambda: odl.IdentityOperator(r3)), ('PowerOperator', lambda: odl.PowerOperator(r3, 2)), ('InnerProductOperator', lambda: odl.InnerProductOperator(r3.one()))]
+    from odl.ufunc_ops import ufunc_ops as U
+    for name in ('sin', 'exp', 'absolute', 'sign', 'square', 'negative', 'modf', 'add', 'maximum', 'arctan2', 'frexp' if hasattr(odl.ufunc_ops, 'frexp') else 'cos'):
+        if hasattr(odl.ufunc_ops, name):
+            pool.append(('ufunc_ops.' + name, (lambda name=name: getattr(odl.ufunc_ops, name)(r3))))
+    return pool
+
+
+def operator_pool_check(name):
+    """native: for the named pool operator and 3 random inputs: op(x) is a range element that shares no memory with x; op(x, out=y) returns y with the values of op(x) whatever
+    y held before; x is bit-for-bit unchanged by both calls and by later in-place changes of the result"""
+    import os
+    import sys
+    root = os.environ.get('PYVC_REPO', '/repo')
+    if root not in sys.path:
+        sys.path.insert(0, root)
+    import warnings
+    warnings.filterwarnings('ignore')
+    import numpy as np
+    import odl
+    build = dict(operator_pool())[name]
+    rng = np.random.default_rng(14)
+
+    def arrays(e):
+        if isinstance(e, odl.space.pspace.ProductSpaceElement):
+            return [a for p in e.parts for a in arrays(p)]
+        return [e.asarray()] if hasattr(e, 'asarray') else []
+
+    def rand(space):
+        if isinstance(space, odl.ProductSpace):
+            return space.element([rand(s) for s in space.spaces])
+        a = rng.uniform(0.5, 2.0, space.shape)
+        if getattr(space, 'is_complex', False):
+            a = a + 1j * rng.uniform(0.5, 2.0, space.shape)
+        return space.element(a)
+    try:
+        op = build()
+        for _ in range(3):
+            x = rand(op.domain)
+            x0 = [a.copy() for a in arrays(x)]
+            y1 = op(x)
+            if y1 not in op.range:
+                return 'op(x) is not in op.range'
+            if any(np.shares_memory(a, b) for a in arrays(y1) for b in arrays(x)) if hasattr(y1, 'space') else False:
+                return 'op(x) shares memory with x (a later in-place change of the result changes the input)'
+            vals = [a.copy() for a in arrays(y1)] if hasattr(y1, 'space') else y1
+            if any(not np.array_equal(a, b) for a, b in zip(arrays(x), x0)):
+                return 'op(x) modified x'
+            if not hasattr(y1, 'space'):
+                continue
+            out = rand(op.range)
+            try:
+                ret = op(x, out=out)
+            except Exception as e:
+                return 'op(x, out=y) raised %s: %s  (op(x) works)' % (type(e).__name__, str(e)[:120])
+            if ret is not out:
+                return 'op(x, out=y) did not return y'
+            if any(a.shape != b.shape or not np.allclose(a, b, equal_nan=True) for a, b in zip(arrays(out), vals)):
+                return 'op(x, out=y) holds %r, op(x) is %r' % ([a.tolist() for a in arrays(out)], [a.tolist() for a in vals])
+            if any(not np.array_equal(a, b) for a, b in zip(arrays(x), x0)):
+                return 'op(x, out=y) modified x'
+    except Exception as e:
+        return 'raised %s: %s' % (type(e).__name__, str(e)[:160])
+    return None
+
+
+def unit_operator_pool_bounded():
+    """BOUNDED stand-in (never counted as proved) for the `_call`s outside the deductive units: see operator_pool_check"""
+    def run(ctx):
+        import os
+        import sys
+        root = os.environ.get('PYVC_REPO', '/repo')
+        if root not in sys.path:
+            sys.path.insert(0, root)
+        import warnings
+        warnings.filterwarnings('ignore')
+        for name, _ in operator_pool():
+            bad = operator_pool_check(name)
+            ctx.bounded('library operator: result in range and no view of x, in-place == out-of-place, out returned, x untouched', not bad, {'operator': name}, detail=bad)
+    return Unit('operator-pool/native', run, funcs=['odl.operator.tensor_ops:*._call', 'odl.operator.pspace_ops:*._call', 'odl.discr.diff_ops:*._call', 'odl.discr.discr_ops:*._call', 'odl.ufunc_ops.ufunc_ops:*._call'],
+                kind='B', bounded_in='one small instance per listed operator class, 3 random inputs each')
+
+
 def units(tier, seed):
     from contracts.props import C10, C04
     us = []
@@ -363,6 +516,8 @@ def units(tier, seed):
     for m, n, entries in pspace_patterns(tier):
         us.append(unit_pspace_call(m, n, entries))
     us.append(unit_dispatch())
+    us.append(unit_matrix_operator_bounded())
+    us.append(unit_operator_pool_bounded())
     us.append(C10.unit_simplex_bounded())
     us.append(C10.unit_canary())
     return us
@@ -412,5 +567,11 @@ def replay(ob):
     if ob.get('unit', '').startswith('simplex/'):
         from contracts.props import C10
         return C10.replay(ob)
+    if ob.get('unit', '').startswith('operator-pool/'):
+        bad = operator_pool_check((ob.get('model') or {}).get('operator'))
+        return {'reproduced': bool(bad), 'detail': bad or 'holds natively', 'input': ob.get('model')}
+    if ob.get('unit', '').startswith('matrix-operator/'):
+        bad = matrix_operator_case_check(ob.get('model') or (ob.get('replay') or {}).get('case'))
+        return {'reproduced': bool(bad), 'detail': bad or 'holds natively', 'input': ob.get('model')}
     from contracts import replay_forms
     return replay_forms.replay(ob)
